@@ -169,7 +169,12 @@ def check_b(case):
 
 
 def rejected_domain(tier):
-    return [{"year": y, "week": w, "sep": s} for (y, w) in REJECTED for s in (".", "", "w")]
+    out = [{"year": y, "week": w, "sep": s} for (y, w) in REJECTED for s in (".", "", "w")]
+    # the same incoherent leading pair with the OTHER kind of year mentioned further right: still not monotone
+    for (y, w) in REJECTED:
+        for extra in (("GG", "0G", "GGGG") if y in ("YYYY", "YY", "0Y") else ("YY", "0Y", "YYYY")):
+            out.append({"year": y, "week": w, "sep": ".", "extra": extra})
+    return out
 
 
 def nonmonotone_witness(ast):
@@ -189,12 +194,15 @@ def check_rejected(case):
     y, w, sep = case["year"], case["week"], case["sep"]
     if sep == "" and (y not in grammar.FIXED_WIDTH or grammar._straddles(y, w)):
         return discard("glue-not-expressible")
-    pattern = y + sep + w + ".PATCH"
+    extra = case.get("extra")
+    pattern = y + sep + w + ("." + extra if extra else "") + ".PATCH"
     date = dt.date(2021, 6, 15)
-    ast = [["part", y]] + ([["lit", sep]] if sep else []) + [["part", w], ["lit", "."], ["part", "PATCH"]]
+    ast = [["part", y]] + ([["lit", sep]] if sep else []) + [["part", w]] + ([["lit", "."], ["part", extra]] if extra else []) + [["lit", "."], ["part", "PATCH"]]
     state = grammar.state_from(date, patch=1)
     old = ref_render(ast, state)
     wit = nonmonotone_witness(ast[:-2])
+    if wit is None and extra:
+        return discard("extended-pattern-is-monotone")
     if wit is None:
         raise HarnessError(f"rejected pairing {pattern} is monotone 2001-2030: the rejection oracle would be vacuous")
     args = ["test", old, pattern, "--patch", "--date", "2021-07-15"]
@@ -211,7 +219,7 @@ def check_rejected(case):
             return viol("incoherent-year-week-pairing-accepted-by-config", {"pattern": pattern}, {"pattern": pattern, "show": r2.summary(), "update": r3.summary(), "non_monotone_on": wit})
     finally:
         shutil.rmtree(tmp, ignore_errors=True)
-    return ok(nt=True, classes=("rejected",))
+    return ok(nt=True, classes=("rejected", "both-year-kinds-present") if extra else ("rejected",))
 
 
 def selftest():
